@@ -7,6 +7,7 @@ import (
 	"fmt"
 	"sort"
 	"strings"
+	"sync/atomic"
 	"testing"
 	"testing/synctest"
 
@@ -25,6 +26,13 @@ import (
 // on the real handler with a real PartitionLeaseManager (and a second broker's manager)
 // over the fake etcd. Sequential: the lease state cannot change during the request, so
 // "held when it appended" is the manager's belief right after the request.
+//
+// Second dimension (c19Case.Avail != nil): etcd itself reachable, but the metadata store's
+// Available() flag - what handler.etcdAvailable() reads, and what in production follows the
+// outcome of the latest etcd operation of ANY goroutine - answers per call from an enumerated
+// bit vector: the k-th call during the request answers Avail[k] (true afterwards). Every vector
+// of length c19AvailLen is covered; a run that consumed k answers stands for all vectors that
+// share these k answers (the handler is sequential in its Available() calls, hence deterministic).
 
 const (
 	c19Unowned      = iota // nobody holds the lease
@@ -45,13 +53,54 @@ type c19Case struct {
 	EtcdDown bool
 	Parts    int // bitmask: 1 = t/0, 2 = t/1, 4 = unknown topic u/0
 	Acks     int16
+	Avail    []bool `json:",omitempty"` // answers of the store's Available() during the request, in call order (true afterwards); nil = store without availability flag
+}
+
+const c19AvailLen = 6
+
+// c19AvailStore is a metadata.Store whose Available() (the handler's etcdAvailability interface)
+// answers from a per-call script once armed.
+type c19AvailStore struct {
+	metadata.Store
+	answers []bool
+	armed   atomic.Bool
+	calls   atomic.Int32
+}
+
+func (s *c19AvailStore) Available() bool {
+	if !s.armed.Load() {
+		return true
+	}
+	k := int(s.calls.Add(1)) - 1
+	if k < len(s.answers) {
+		return s.answers[k]
+	}
+	return true
+}
+
+func c19AvailString(a []bool) string {
+	if a == nil {
+		return "-"
+	}
+	b := make([]byte, len(a))
+	for i, v := range a {
+		b[i] = 'U'
+		if !v {
+			b[i] = 'd'
+		}
+	}
+	return string(b)
 }
 
 func (c c19Case) String() string {
+	if c.Avail != nil {
+		return fmt.Sprintf("t/0=%s t/1=%s storeAvailable()=%s(then up) parts=%03b acks=%d", c19StateNames[c.State[0]], c19StateNames[c.State[1]], c19AvailString(c.Avail), c.Parts, c.Acks)
+	}
 	return fmt.Sprintf("t/0=%s t/1=%s etcdDown=%v parts=%03b acks=%d", c19StateNames[c.State[0]], c19StateNames[c.State[1]], c.EtcdDown, c.Parts, c.Acks)
 }
 
-func c19Run(rep *vh.Report, c c19Case) {
+// c19Run executes one case; it returns the number of Available() answers the request consumed.
+func c19Run(rep *vh.Report, c c19Case) (consumed int) {
 	srv := fakeetcd.NewServer()
 	cli1 := srv.NewClient("b1")
 	cli1.NoPoints = true
@@ -121,7 +170,12 @@ func c19Run(rep *vh.Report, c c19Case) {
 	bucket := fakes3.NewBucket()
 	s3 := fakes3.New(bucket, "b1")
 	s3.NoPoints = true
-	store := metadata.NewInMemoryStore(vMeta(map[string]int{"t": 2}))
+	var store metadata.Store = metadata.NewInMemoryStore(vMeta(map[string]int{"t": 2}))
+	var avail *c19AvailStore
+	if c.Avail != nil {
+		avail = &c19AvailStore{Store: store, answers: c.Avail}
+		store = avail
+	}
 	h := vNewHandler(store, s3)
 	h.leaseManager = lm1
 	h.autoCreateTopics = false
@@ -150,7 +204,20 @@ func c19Run(rep *vh.Report, c c19Case) {
 	if c.Parts&4 != 0 {
 		add("u", 0)
 	}
+	if avail != nil {
+		avail.armed.Store(true)
+	}
 	res, err := vProduce(h, c.Acks, parts)
+	sawDown := false
+	if avail != nil {
+		avail.armed.Store(false)
+		consumed = int(avail.calls.Load())
+		for k := 0; k < consumed && k < len(c.Avail); k++ {
+			if !c.Avail[k] {
+				sawDown = true
+			}
+		}
+	}
 	rep.Eval(1)
 	if err != nil {
 		rep.Violationf("harness", c, "produce: %v", err)
@@ -203,14 +270,24 @@ func c19Run(rep *vh.Report, c c19Case) {
 		if !retriable {
 			rep.Violationf("non-retriable-error-code", c, "%s answered code %d (%s)", tp, r.Code, c)
 		}
-		if (st == c19Other || st == c19MineStolen) && !c.EtcdDown && r.Code != 6 {
+		// a store that reported itself unavailable during the request may answer the retriable REQUEST_TIMED_OUT instead
+		if (st == c19Other || st == c19MineStolen) && !c.EtcdDown && !sawDown && r.Code != 6 {
 			rep.Violationf("other-owner-not-reported-as-not-leader", c, "%s is owned by broker 2 but the reply code is %d, want NOT_LEADER_OR_FOLLOWER (%s)", tp, r.Code, c)
 		}
 	}
 	sort.Strings(sig)
 	nontrivial := c.State[0] != c19Unowned || c.State[1] != c19Unowned || c.EtcdDown
-	rep.Outcome(fmt.Sprintf("%v|%v|%v", c.State, c.EtcdDown, sig), nontrivial)
-	if nontrivial && c.Parts == 3 {
+	availSig := "-"
+	if avail != nil {
+		n := consumed
+		if n > len(c.Avail) {
+			n = len(c.Avail)
+		}
+		availSig = fmt.Sprintf("%s/%d", c19AvailString(c.Avail[:n]), consumed)
+		nontrivial = sawDown
+	}
+	rep.Outcome(fmt.Sprintf("%v|%v|%s|%v", c.State, c.EtcdDown, availSig, sig), nontrivial)
+	if nontrivial && c.Parts == 3 && avail == nil {
 		rep.Sample(map[string]any{"case": c.String(), "result": sig})
 	}
 	lm1.ReleaseAll()
@@ -218,13 +295,14 @@ func c19Run(rep *vh.Report, c c19Case) {
 	for _, id := range srv.LiveLeases() {
 		srv.ExpireLease(id)
 	}
+	return consumed
 }
 
 func TestVerifC19(t *testing.T) {
 	rep := vh.New(t, "C19")
 	defer rep.Finish()
-	rep.Rule = "every (lease state of t/0) x (lease state of t/1) over {unowned, mine, other, mine-expired, other-expired, mine-expired-then-other, re-acquired after a same-id restart whose old session then expired (and then broker 2 tries to acquire)} x etcd reachable/unreachable x non-empty subsets of {t/0, t/1, unknown u/0} x acks {-1,1,0}: one produce through the real handler with a real PartitionLeaseManager over the fake etcd; distinct = (states, etcd, per-partition code/owns/written); non-trivial = some lease state other than unowned or etcd down"
-	rep.Assumptions = []string{"fake etcd stands for etcd", "sequential: no lease change during the request (a lease lost between check and append cannot be fenced without a fencing token and is outside the property's quantifier)", "retriable = NOT_LEADER_OR_FOLLOWER, REQUEST_TIMED_OUT, UNKNOWN_SERVER_ERROR, UNKNOWN_TOPIC_OR_PARTITION"}
+	rep.Rule = "every (lease state of t/0) x (lease state of t/1) over {unowned, mine, other, mine-expired, other-expired, mine-expired-then-other, re-acquired after a same-id restart whose old session then expired (and then broker 2 tries to acquire)} x etcd reachable/unreachable x non-empty subsets of {t/0, t/1, unknown u/0} x acks {-1,1,0}: one produce through the real handler with a real PartitionLeaseManager over the fake etcd; distinct = (states, etcd, per-partition code/owns/written); non-trivial = some lease state other than unowned or etcd down. Second part: the same lease states x request shapes x acks with etcd reachable and the metadata store's Available() flag (read by handler.etcdAvailable()) answering the k-th call of the request from a bit vector, every vector of length 6 (up afterwards), explored by consumed prefix: a run that consumed k answers stands for all vectors sharing them; non-trivial there = the request consumed at least one 'down' answer"
+	rep.Assumptions = []string{"fake etcd stands for etcd", "the availability flag may change between any two reads of one request (in production it follows the latest etcd operation of any goroutine); the request's Available() calls are sequential, so equal consumed answers give equal runs", "sequential: no lease change during the request (a lease lost between check and append cannot be fenced without a fencing token and is outside the property's quantifier)", "retriable = NOT_LEADER_OR_FOLLOWER, REQUEST_TIMED_OUT, UNKNOWN_SERVER_ERROR, UNKNOWN_TOPIC_OR_PARTITION"}
 	var rp c19Case
 	if ok, err := vh.LoadReplay(&rp); ok {
 		if err != nil {
@@ -238,4 +316,43 @@ func TestVerifC19(t *testing.T) {
 		synctest.Test(t, func(t *testing.T) { c19Run(rep, c) })
 		return true
 	})
+	// Availability-flag dimension: etcd reachable, Available() answers scripted per call.
+	var availRuns, availVectors, maxConsumed int64
+	enum.Product([]int{c19States, c19States, 7, 3}, func(idx []int) bool {
+		// vectors in lexicographic order, "up" before "down"; bit i of v (from the left) = 1 means the i-th answer is "down"
+		v := 0
+		for {
+			a := make([]bool, c19AvailLen)
+			for i := range a {
+				a[i] = v>>(c19AvailLen-1-i)&1 == 0
+			}
+			c := c19Case{State: [2]int{idx[0], idx[1]}, Parts: idx[2] + 1, Acks: []int16{-1, 1, 0}[idx[3]], Avail: a}
+			k := 0
+			synctest.Test(t, func(t *testing.T) { k = c19Run(rep, c) })
+			availRuns++
+			if int64(k) > maxConsumed {
+				maxConsumed = int64(k)
+			}
+			if k > c19AvailLen {
+				k = c19AvailLen
+			}
+			// this run stands for every vector sharing the k consumed answers; continue with the next k-prefix
+			availVectors += int64(1) << (c19AvailLen - k)
+			if k == 0 {
+				break
+			}
+			next := v>>(c19AvailLen-k) + 1
+			if next >= 1<<k {
+				break
+			}
+			v = next << (c19AvailLen - k)
+		}
+		return true
+	})
+	rep.Count("avail_runs", availRuns)
+	rep.Count("avail_vectors_covered", availVectors)
+	rep.SetInfo("avail_max_answers_consumed_by_one_request", maxConsumed)
+	if maxConsumed > c19AvailLen {
+		rep.Cap(fmt.Sprintf("a request consumed %d Available() answers, more than the scripted %d", maxConsumed, c19AvailLen))
+	}
 }
